@@ -9,6 +9,7 @@ import (
 	"time"
 
 	"verif/sim/instr"
+	"verif/sim/kernelconf"
 )
 
 type propCfg struct {
@@ -159,7 +160,18 @@ func init() {
 		variantsQ: []string{"default+small", "poll_opt"}, variantsT: []string{"default", "default+small", "poll_opt", "poll_opt+small"}}}
 }
 
-var selftests = map[string]func(tier string) int{}
+var selftests = map[string]func(tier string) int{
+	// the simulated kernel against the real one: disagreement = the stub is
+	// not trustworthy = harness trouble (exit 2), never a violation
+	"selftest-kernel": func(tier string) int {
+		total, bad := kernelconf.Run(os.Getenv("VERIF_VERBOSE") != "")
+		fmt.Printf("selftest-kernel: %d scripts, %d disagreements between linux and vsys\n", total, bad)
+		if bad > 0 {
+			return 2
+		}
+		return 0
+	},
+}
 
 // buildEngine compiles the engine's test binary against the current working
 // tree of the repository. Engines that need the simulated kernel/scheduler are
